@@ -86,7 +86,8 @@ class Session2:
 
             return app
 
-        sess = H2.H2Session([], policy=self.policy, seed=self.seed, app=make_app, raw_client=True)
+        sess = H2.H2Session([], policy=self.policy, seed=self.seed, app=make_app, raw_client=True,
+                            worker=rng.choice(["asyncio", "trio"]))
         self.sess = sess
         # interleave the streams' frames
         todo = []
